@@ -153,5 +153,8 @@ func genRemoveUni(tb, l, w, deltaU *big.Int) *big.Int {
 
 func isOverflowText(s string) bool {
 	s = strings.ToLower(s)
+	if strings.Contains(s, "Int64()") || strings.Contains(s, "Uint64()") {
+		return false // conversion of an existing number to a machine integer: not a range refusal
+	}
 	return strings.Contains(s, "overflow") || strings.Contains(s, "out of bound") || strings.Contains(s, "out of range")
 }
